@@ -267,9 +267,15 @@ def gen_module(seed, size=2):
         pfx = 'f%d_' % k
         fres[0] = bool(results)
         ops = body_seq(pfx, k, params, locs, 0, r.randint(1, 2 + size))
-        if g.chance(0.15):
+        if g.chance(0.3):
             # an early return: the rest of the body is dead code (still valid, may mention entities)
-            ops += [const_of(t, g.fresh(pfx + 'r')) for t in results] + [OP('Return')] + body_seq(pfx, k, params, locs, 0, 1)
+            dead = body_seq(pfx, k, params, locs, 1, r.randint(1, 3))
+            if g.chance(0.6):
+                # a block nested in dead code: the parser never attaches it to the body
+                dead = [OP('Block', blockty=BT_EMPTY)] + dead + [OP('End')]
+            else:
+                dead = body_seq(pfx, k, params, locs, 0, 1)
+            ops += [const_of(t, g.fresh(pfx + 'r')) for t in results] + [OP('Return')] + dead
             ops += [OP('Unreachable')] if results else []
         else:
             ops += [const_of(t, g.fresh(pfx + 'r')) for t in results]
